@@ -43,7 +43,9 @@ def large_arrays(sp):
     }
     for name, arr in small.items():
         withna = type(arr)._concat_same_type([arr[:50], type(arr)([None], dtype=arr.dtype), arr[50:]])
-        _LARGE[name] = type(arr)._concat_same_type([withna] * 720)          # 98 * 720 = 70560 elements
+        # 98 * 719 + 3 = 70465 elements: odd, = 1 mod 4, ceil(n / 8) odd - a kernel that cuts the flat coordinate values into one
+        # chunk per numba thread gets chunks of odd length for 2, 4 and 16 threads
+        _LARGE[name] = type(arr)._concat_same_type([withna] * 719 + [withna[:3]])
     return _LARGE
 
 
@@ -105,6 +107,7 @@ def main():
                         inds = np.arange(len(big) - 1, -1, -3)
                         res[f"big_{name}_intersects_bounds_inds"] = digest(np.asarray(big.intersects_bounds(q, inds)).tobytes())
                         res[f"big_{name}_bounds"] = digest(np.asarray(big.bounds).tobytes())
+                        res[f"big_{name}_total_bounds"] = [float(v) for v in big.total_bounds] + [float(v) for v in big.total_bounds_x] + [float(v) for v in big.total_bounds_y]
                         res[f"big_{name}_length_area"] = digest(np.asarray(big.length).tobytes() + np.asarray(big.area).tobytes())
                         res[f"big_{name}_cx"] = digest(np.asarray(big.cx[q[0]:q[2], q[1]:q[3]].bounds).tobytes())
                         res[f"big_{name}_hilbert"] = digest(np.asarray(big.hilbert_distance(p=12)).tobytes())
